@@ -147,7 +147,8 @@ Qed.
 Theorem root_create_file_bal root path fl mode o :
   bal (Rfd o) o (root_create_file fz cfg pfuel gh sysctl_ps rs root path fl mode).
 Proof.
-  unfold root_create_file, os. unfold bindR. eapply bal_bind; [apply parent_and_name_bal|].
+  unfold root_create_file, os. destruct (CREATE_FILE_REFUSES_OPATH && has fl O_PATH); [constructor; hnf; apply Permutation.Permutation_refl|].
+  unfold bindR. eapply bal_bind; [apply parent_and_name_bal|].
   intros [[dir name]|e] o1 Ho1; [|constructor; exact Ho1]. hnf in Ho1.
   eapply bal_bind; [apply bal_map_err_fd, w_openat_bal|]. intros r o2 Ho2. hnf in Ho2. destruct r as [fd|e].
   - apply close_ret_bal with (o' := fd :: o); [apply perm_closed_Rfd| |hnf; reflexivity].
